@@ -144,7 +144,7 @@ typedef struct {
 	uint32_t id;
 	atomic_uint cb_count;
 } send_slot;
-#define C05_SLOTS (C05_MAX_SENDERS * C05_MAX_SENDS + 4096)
+#define C05_SLOTS (C05_MAX_SENDERS * C05_MAX_SENDS + 4096 + 2048)
 static send_slot slots[C05_SLOTS];
 
 static const c05_scn *g5;
@@ -272,6 +272,32 @@ c05_run(const c05_scn *scn, c05_out *out) {
 	out->hang |= fence_all(g5_tp, scn->nthreads, 1);
 	out->hang |= fence_all(g5_tp, scn->nthreads, 1);
 	tp_log(R_MARK, 1, 0, 0, 0);
+	/* late burst: messages accepted by a running thread after tp_shutdown() was called but before the thread has seen
+	 * its stop message are still successful sends; the thread is held in a callback while they are queued */
+	if (0 != scn->late_burst && 0 == out->hang) {
+		tpt_p dst = tp_thread_get(g5_tp, scn->late_dst % scn->nthreads);
+		atomic_store(&g5_stall_in, 0);
+		atomic_store(&g5_stall_release, 0);
+		if (tpt_is_running(dst) && 0 == tpt_msg_send(dst, NULL, 0, c05_stall_cb, NULL)) {
+			int w = 0;
+			while (0 == atomic_load(&g5_stall_in) && w < CEIL_MS * 10) {
+				usleep(100);
+				w ++;
+			}
+			if (0 != atomic_load(&g5_stall_in)) {
+				tp_shutdown(g5_tp);
+				for (b = 0; b < scn->late_burst && b < 2000; b ++) {
+					id = out->nsends + b;
+					tp_log(R_SEND_CALL, id, 0, 0, 0);
+					rc = tpt_msg_send(dst, NULL, 0, c05_cb, &slots[id]);
+					tp_log(R_SEND_RET, id, (uint64_t)(int64_t)rc, 0, 0);
+				}
+				out->nlate = b;
+				out->nsends += b;
+			}
+			atomic_store(&g5_stall_release, 1);
+		}
+	}
 	pool_teardown(g5_tp, &out->res);
 }
 
